@@ -44,9 +44,9 @@ VARIABLES
   execs,     \* process starts per step
   early,     \* C01 violated at some start
   lateStart, \* a step process was started after the stop was accepted
-  lateFresh, \* ... whose executor had not even been created when the stop was accepted
-  created,   \* executor created (ever) per step, snapshot at stop: pastCreate
-  pastCreate,
+  lateFresh, \* ... whose worker had not yet passed its own cancel check when the stop was accepted
+  created,   \* executor created (ever) per step
+  pastCreate,\* snapshot at stop: the worker of s had already passed its own cancel check (F-05b window)
   hwm,       \* C15: max number of simultaneously executing steps
   rwait,     \* step is waiting out its retry interval
   lastOK,    \* outcome of the last attempt per step
@@ -276,7 +276,7 @@ Stronger(a, b) == IF a = "kill" \/ b = "kill" THEN "kill" ELSE IF a = "term" \/ 
 
 SCall == /\ spc = "idle" /\ cfg.stop /\ lpc # "returned"          \* a stop request arrives: flag set, gate signal.flagged
          /\ canceled' = TRUE /\ spc' = "signal.flagged" /\ sround' = "term"
-         /\ pastCreate' = created
+         /\ pastCreate' = [s \in Steps |-> wpc[s] \in {"worker.exec", "node.created"}]   \* worker already past its own cancel check
          /\ stopDone' = FinishedSt(status)
          /\ UNCHANGED <<cfg, loopVars, nodeVars, workVars, lastErr, timedOut, si,
                         execs, early, lateStart, lateFresh, created, hwm, rwait, lastOK>>
@@ -344,6 +344,11 @@ C04_Outcome == Returned /\ ~timedOut =>
                              ELSE C04_OutcomeNoStop(Steps, status, RunNow)
 C04_HandlerLog == Returned /\ ~timedOut => C04_Handlers(cfg.handlers, RunNow, hlog)
 C04_NoRunningLeft == Returned => \A s \in Steps : status[s] # RUN
+
+\* when the KILL escalation round of Signal is over, every process still alive (repeat steps excepted) has been sent SIGKILL
+C05_KillReaches  == spc = "done" => \A s \in Steps : alive[s] /\ ~cfg.repeat[s] => sigd[s] = "kill"
+\* when the TERM round is over, every process that was alive when the stop was accepted and still is has been signalled
+C05_TermReaches  == spc = "between" => \A s \in Steps : alive[s] /\ ~cfg.repeat[s] /\ ~pastCreate[s] => sigd[s] # "none"
 
 Ends     == <>Returned
 StopEnds == (spc = "signal.flagged") ~> Returned
